@@ -400,7 +400,10 @@ func init() {
 		allocPath := fs.String("alloc-rows", "", "C08 allocation rows")
 		seed := fs.Int64("seed", 1, "seed")
 		stride := fs.Int("stride", 1, "use every stride-th row")
+		recvTrace := fs.String("recv-trace", "", "output NDJSON of the hook events of every k-th connection, for TraceRecv")
+		traceEvery := fs.Int("trace-every", 3, "k")
 		fs.Parse(args)
+		setupRecvTrace(*recvTrace, *traceEvery)
 		rep := newReport("limit")
 		var evals, rows int64
 		distinct := map[string]bool{}
@@ -483,6 +486,9 @@ func init() {
 		}
 		rep.Extra["max_alloc_bytes_in_alloc_phase"] = maxAlloc
 		rep.Evaluations, rep.Rows, rep.Distinct = evals, rows, int64(len(distinct))
+		if err := finishRecvTrace(*recvTrace, rep); err != nil {
+			return err
+		}
 		rep.print()
 		return nil
 	}
